@@ -29,3 +29,8 @@ func (b *Buffer) VerifGrow(n int) (capacity, readPos, writePos int) {
 func (b *Buffer) VerifGeometry() (capacity, readPos, writePos int) {
 	return cap(b.core), b.readPos, b.writePos
 }
+
+// VerifBuffer returns the packer's buffer.
+func (packer *MessagePacker) VerifBuffer() *Buffer {
+	return packer.b
+}
